@@ -603,6 +603,8 @@ def check(plan, transcript, config, opts):
                 if not data:
                     continue
             reason = validate(typ, data, P)
+            if ok and reason is None and d.get('cyc') == '0':
+                reason = 'not-cyclotomic'      # packed bytes that are not the image of any element the encoder packs
             cls = 'error' if not ok else ('valid' if reason is None else 'invalid-accepted')
             if ok:
                 out.probe('decode-succeeded-after-damage')
